@@ -80,10 +80,9 @@ func (f *frame) step(st *State, ins ssa.Instruction) {
 		v := f.val(st, x.X)
 		st.regs[x] = VIface{Dyn: x.X.Type(), V: v, ID: ex.decls.fresh("iface", SInt)}
 	case *ssa.MakeMap:
-		st.regs[x] = VOpaque{ex.decls.fresh("map", SInt), x.Type()}
-		ex.note("abstracted: map value in " + f.key)
+		st.regs[x] = VMap{ID: ex.decls.fresh("map", SInt), Typ: x.Type()}
 	case *ssa.MapUpdate:
-		ex.note("abstracted: map update in " + f.key)
+		f.mapUpdate(st, x)
 	case *ssa.Lookup:
 		f.lookup(st, x)
 	case *ssa.ChangeType:
@@ -112,6 +111,7 @@ func (f *frame) alloc(st *State, a *ssa.Alloc) Val {
 	et := a.Type().(*types.Pointer).Elem()
 	if n, ok := heapStructName(et); ok && a.Heap && ex.prog.heapModelled(n) {
 		ref := ex.decls.fresh("new_"+n.Obj().Name(), SInt)
+		st.assume(tLe("0", ex.heapTop()))
 		st.assume(tLt(ex.heapTop(), ref))
 		for _, o := range st.fresh {
 			st.assume(tNe(ref, o))
@@ -507,6 +507,20 @@ func (f *frame) sliceOp(st *State, x *ssa.Slice) Val {
 	} else {
 		out.Cap = tSub(s.Cap, lo)
 	}
+	if !s.HasLit && isByteElem(s.Elem) {
+		if l, ok := st.lits[s.R]; ok {
+			if o, isn := isNum(s.Off); isn && o.Sign() == 0 {
+				if n, isn2 := isNum(s.Len); isn2 && n.IsInt64() && n.Int64() <= int64(len(l)) {
+					lit := make([]byte, n.Int64())
+					for i := range lit {
+						lit[i] = byte(l[i])
+					}
+					s.Lit = lit
+					s.HasLit = true
+				}
+			}
+		}
+	}
 	if s.HasLit {
 		l, ok1 := isNum(lo)
 		h, ok2 := isNum(hi)
@@ -532,12 +546,7 @@ func (f *frame) fieldAddr(st *State, x *ssa.FieldAddr) Val {
 	case VCellPtr:
 		return VCellPtr{C: b.C, Path: append(append([]int(nil), b.Path...), x.Field)}
 	case VElemPtr:
-		// &s[i].f : read-modify-write not needed in this code base; support reads via a temp cell
-		v := f.readElem(st, b.S, b.Idx)
-		c := ex.newCell("elem", b.S.Elem)
-		st.cells[c] = v
-		ex.note("abstracted: field address of slice element treated as copy (reads only) in " + f.key)
-		return VCellPtr{C: c, Path: []int{x.Field}}
+		return VElemPtr{S: b.S, Idx: b.Idx, Path: append(append([]int(nil), b.Path...), x.Field)}
 	case VGlobalPtr:
 		v := ex.prog.globalLoad(ex, st, b.G)
 		c := ex.newCell("gcopy", b.G.Type().(*types.Pointer).Elem())
@@ -639,7 +648,6 @@ func (f *frame) typeAssert(st *State, x *ssa.TypeAssert) {
 }
 
 func (f *frame) lookup(st *State, x *ssa.Lookup) {
-	ex := f.ex
 	base := f.val(st, x.X)
 	if s, ok := base.(VSlice); ok && s.Str {
 		idx := f.val(st, x.Index).(VInt).T
@@ -648,16 +656,107 @@ func (f *frame) lookup(st *State, x *ssa.Lookup) {
 		return
 	}
 	// map lookup
-	if r, ok := ex.prog.mapLookup(f, st, x, base); ok {
-		st.regs[x] = r
+	f.mapLookup(st, x, base)
+}
+
+func (f *frame) mapUpdate(st *State, x *ssa.MapUpdate) {
+	ex := f.ex
+	m, ok := f.val(st, x.Map).(VMap)
+	k, isStr := f.val(st, x.Key).(VSlice)
+	if !ok || !isStr || !k.HasLit || m.Unknown {
+		ex.note("out-of-subset: map update with non-literal key in " + f.key)
 		return
 	}
-	ex.note("abstracted: map lookup (result unconstrained) in " + f.key)
+	nm := VMap{ID: m.ID, Typ: m.Typ, Keys: append([]string(nil), m.Keys...), Vals: append([]Val(nil), m.Vals...)}
+	v := f.val(st, x.Value)
+	found := false
+	for i, kk := range nm.Keys {
+		if kk == string(k.Lit) {
+			nm.Vals[i] = v
+			found = true
+		}
+	}
+	if !found {
+		nm.Keys = append(nm.Keys, string(k.Lit))
+		nm.Vals = append(nm.Vals, v)
+	}
+	// maps are reference values: update every holder of this map on the path
+	f.replaceMap(st, m.ID, nm)
+}
+
+func (f *frame) replaceMap(st *State, id T, nm VMap) {
+	for k, v := range st.regs {
+		if m, ok := v.(VMap); ok && m.ID == id {
+			st.regs[k] = nm
+		}
+	}
+	for k, v := range st.cells {
+		if m, ok := v.(VMap); ok && m.ID == id {
+			st.cells[k] = nm
+		}
+	}
+}
+
+func (f *frame) mapLookup(st *State, x *ssa.Lookup, base Val) {
+	ex := f.ex
 	vt := x.X.Type().Underlying().(*types.Map).Elem()
-	v := ex.freshVal(st, "maplk", vt, true)
-	if x.CommaOk {
-		st.regs[x] = VTuple{[]Val{v, VBool{ex.decls.fresh("mapok", SBool)}}}
+	m, ok := base.(VMap)
+	k, isStr := f.val(st, x.Index).(VSlice)
+	if !ok || m.Unknown || !isStr {
+		ex.note("abstracted: map lookup (result unconstrained) in " + f.key)
+		v := ex.freshVal(st, "maplk", vt, true)
+		if x.CommaOk {
+			st.regs[x] = VTuple{[]Val{v, VBool{ex.decls.fresh("mapok", SBool)}}}
+		} else {
+			st.regs[x] = v
+		}
+		return
+	}
+	// key equality conditions against each literal key
+	conds := make([]T, len(m.Keys))
+	for i, kk := range m.Keys {
+		lit := ex.litSlice(st, []byte(kk), true)
+		conds[i] = seqEqTerms(ex, st, k, lit)
+	}
+	// concrete hit / miss
+	for i, c := range conds {
+		if c == "true" {
+			if x.CommaOk {
+				st.regs[x] = VTuple{[]Val{m.Vals[i], VBool{"true"}}}
+			} else {
+				st.regs[x] = m.Vals[i]
+			}
+			return
+		}
+	}
+	var alts []Val
+	var cs []T
+	for i, c := range conds {
+		if c == "false" {
+			continue
+		}
+		alts = append(alts, m.Vals[i])
+		cs = append(cs, c)
+	}
+	none := tNot(tOr(cs...))
+	alts = append(alts, zeroVal(ex, st, vt))
+	cs = append(cs, none)
+	var res Val
+	if len(alts) == 1 {
+		res = alts[0]
 	} else {
-		st.regs[x] = v
+		// guarded merge: exactly one condition holds (keys are distinct literals)
+		saved := st.facts
+		var rp []retPath
+		for range alts {
+			rp = append(rp, retPath{st: st})
+		}
+		res = ex.mergeVals(st, cs, alts, vt, "maplk", rp)
+		_ = saved
+	}
+	if x.CommaOk {
+		st.regs[x] = VTuple{[]Val{res, VBool{tNot(none)}}}
+	} else {
+		st.regs[x] = res
 	}
 }
